@@ -14,13 +14,13 @@ package climate
 //@   ensures [C20.vapour-pressure-positive] r > 0
 
 //@ func calcWetBulb(tDryBulb, tDewPoint, hEnthalpy, pAtmosphere) returns (r)
-//@   locals rtb, dx, xmid, psat, wstar, fmid, i
+//@   locals rtb, dx, xmid, psat, wstar, fmid, i@loop
 //@   ensures [C20.wet-bulb-bracket] min(tDewPoint, tDryBulb) <= r && r <= max(tDewPoint, tDryBulb)
 //@   ensures [C20.wet-bulb-ordered] implies(tDewPoint <= tDryBulb, tDewPoint <= r && r <= tDryBulb)
 //@   loop 0 invariant (dx >= 0 && tDewPoint <= rtb && rtb + dx <= tDryBulb) || (dx <= 0 && tDryBulb <= rtb + dx && rtb <= tDewPoint)
 
 //@ func climateVariables(dryBulb, humidity, elevation, vaporPressure, dewPoint, wetBulb, deltaT)
-//@   locals nDays, idx, pa, i, dryBulbTemp, relativeHumidity, vp, tdew, e, twetBulbTemp
+//@   locals nDays, idx, pa, i@loop, dryBulbTemp, relativeHumidity, vp, tdew, e, twetBulbTemp
 //@   kernel
 //@   states none
 //@   noalias
